@@ -1,5 +1,5 @@
 import os, time
-import eng_linuxparse, eng_snapshots
+import eng_linuxparse, eng_snapshots, eng_x86dump
 PID = "C18"
 LEAN_MODULE = "Hw.Props.C18"
 NS = "Hw.Props.C18."
@@ -46,16 +46,19 @@ def run_engines(tier, seed):
     t1 = time.time()
     b = eng_snapshots.run_engine(tier, seed)
     t2 = time.time()
-    out = {"evaluations": a["evaluations"] + b["evaluations"],
-           "distinct_nontrivial": a["distinct_nontrivial"] + b["distinct_nontrivial"],
-           "rule": "linuxparse: " + a["rule"] + " || snapshots: " + b["rule"],
-           "samples": (a.get("samples") or [])[:4] + (b.get("samples") or [])[:4],
-           "problems": a["problems"] + b["problems"],
+    x = eng_x86dump.run_engine(tier, seed)
+    t3 = time.time()
+    out = {"evaluations": a["evaluations"] + b["evaluations"] + x["evaluations"],
+           "distinct_nontrivial": a["distinct_nontrivial"] + b["distinct_nontrivial"] + x["distinct_nontrivial"],
+           "rule": "linuxparse: " + a["rule"] + " || snapshots: " + b["rule"] + " || x86dump: " + x["rule"],
+           "samples": (a.get("samples") or [])[:4] + (b.get("samples") or [])[:4] + (x.get("samples") or [])[:3],
+           "problems": a["problems"] + b["problems"] + x["problems"],
            "known_hits": b.get("known_hits", []),
-           "distribution": {"linuxparse": a.get("distribution"), "snapshots": b.get("distribution")},
+           "distribution": {"linuxparse": a.get("distribution"), "snapshots": b.get("distribution"), "x86dump": x.get("distribution")},
+           "x86dump": {k: x.get(k) for k in ("evaluations", "distinct_nontrivial", "benign_repr_diffs", "buckets_hit")},
            "linuxparse": {k: a.get(k) for k in ("evaluations", "distinct_nontrivial", "benign_repr_diffs", "buckets_hit", "corpus_cases")},
            "snapshots": {k: b.get(k) for k in ("evaluations", "cases", "distinct_nontrivial", "sources")},
-           "engine_wall_s": {"linuxparse": round(t1 - t0, 1), "snapshots": round(t2 - t1, 1)}}
+           "engine_wall_s": {"linuxparse": round(t1 - t0, 1), "snapshots": round(t2 - t1, 1), "x86dump": round(t3 - t2, 1)}}
     return out
 
 
